@@ -5,6 +5,7 @@ import XsdataModel.Gen.Derive
 import XsdataModel.Gen.Attrs
 import XsdataModel.Gen.Subst
 import XsdataModel.Gen.Compound
+import XsdataModel.Gen.TypeLookup
 open Lean Proto Py Xs.Gen
 
 namespace OpsGenDerive
@@ -44,8 +45,9 @@ def run (op : String) (a : Json) : Option (Except String Json) :=
       pure <| ok (jObj [("derived", named d), ("base", named b)])
   | "gen.restrict_fields" => some do
       let base ← dNamed (fld a "base")
-      let (d, b) := restrictClass base (← dNamed (fld a "own"))
-      pure <| ok (jObj [("derived", jShapes (derivedFields b d)), ("base", jShapes b)])
+      let (inherits, d, b) := restrictDerived base (← dNamed (fld a "own"))
+      pure <| ok (jObj [("inherits", jBool inherits),
+                        ("derived", jShapes (if inherits then derivedFields b d else d)), ("base", jShapes b)])
   | "gen.ext_fields" => some do
       -- extension: inherited fields, then the own fields, each class with its own occurrence products
       let pa ← dParticle (fld a "base")
@@ -71,6 +73,16 @@ def run (op : String) (a : Json) : Option (Except String Json) :=
         | .plain s => jObj [("plain", jStr s.name)]
         | .compound c => jObj [("compound", jObj [("names", jList jStr c.names), ("min", jNat c.min),
             ("max", jNat c.max), ("sequence", jOpt jNat c.sequence)])]) (compoundFields ss))
+  | "gen.find_dependency" => some do
+      let dTag (j : Json) : Except String CTag := match j with
+        | .str "Element" => pure .element | .str "ComplexType" => pure .complexType
+        | .str "SimpleType" => pure .simpleType | .str "Attribute" => pure .attribute
+        | _ => .error "bad tag"
+      let cands ← (← asArr (fld a "cands")).mapM dTag
+      let target ← match fld a "target" with
+        | .null => pure (none : Option Nat)
+        | j => (dNat j).map some
+      pure <| ok (jOpt jNat (findDependency (← dTag (fld a "tag")) cands (fun i => target = some i)))
   | _ => none
 
 end OpsGenDerive
